@@ -13,7 +13,7 @@
    Not proved: that the file commands reproduce the tree under the guard
    harness/props/_c44_mirror.py:tree_guard_reason -- that half rests on the correspondence runs. *)
 From Coq Require Import ZArith NArith List Bool String.
-From BV Require Import Lib.Bytes Lib.Obs Model.FastIO Model.FastHist Theory.FastIO Theory.FastHist.
+From BV Require Import Lib.Bytes Lib.Obs Model.FastIO Model.FastHist Theory.FastIO Theory.FastIORD Theory.FastHist.
 Import ListNotations.
 
 (* ---- C44_filecmds_sound ---------------------------------------------------------------- *)
@@ -48,6 +48,28 @@ Theorem C44_filecmds_sound_partial :
     In (CM (opath new (e_id e)) (mode_of e) (e_data e)) (snd (filecmds plain old new mpaths)).
 Proof. exact filecmds_emit_changed_content. Qed.
 Print Assumptions C44_filecmds_sound_partial.
+
+(* ... every renamed file or symlink (rich streams: every renamed entry) whose old path is not an empty
+   directory gets `R old new` ... *)
+Theorem C44_filecmds_renames_partial :
+  forall (plain : bool) (old new : inv) (mpaths : list path) (o e : entry),
+    In o old -> find_entry new (e_id o) = Some e -> renamed_b o e = true ->
+    negb (kind_eqb (e_kind e) KDir) || negb plain = true ->
+    is_empty_dir old (opath old (e_id o)) = false ->
+    In (CR (opath old (e_id o)) (opath new (e_id o))) (fst (filecmds plain old new mpaths)).
+Proof. exact exporter_emits_renames. Qed.
+Print Assumptions C44_filecmds_renames_partial.
+
+(* ... and every removed file or symlink (rich: every removed entry) gets `D old-path`, provided no
+   directory is renamed in plain mode (a directory renamed onto a removed path swallows the D) *)
+Theorem C44_filecmds_deletes_partial :
+  forall (plain : bool) (old new : inv) (mpaths : list path) (o : entry),
+    In o old -> has_id new (e_id o) = false ->
+    negb (kind_eqb (e_kind o) KDir) || negb plain = true ->
+    (forall c, In c (d_renamed old new) -> emits plain c = true) ->
+    In (CD (opath old (e_id o))) (fst (filecmds plain old new mpaths)).
+Proof. exact exporter_emits_deletes. Qed.
+Print Assumptions C44_filecmds_deletes_partial.
 
 Theorem C44_empty_directory_refuted :
   wf_inv (fst wit_emptydir) = true /\
